@@ -7,15 +7,12 @@ import SodiumModel.Spec.Sha512
 import SodiumModel.Spec.Blake2b
 import SodiumModel.Spec.SipHash
 import SodiumModel.Spec.Poly1305
+import SodiumModel.Driver.C04Ref
 namespace Sodium.Driver.C04
 open Sodium Sodium.Model Sodium.Driver Sodium.Spec
 
-def H256 : HashOps Sha256.State :=
-  { W := 64, outLen := 32, init := mdInit Sha256.iv, update := mdUpdate Sha256.compress 64 64,
-    final := fun s => Sha256.digest (mdPadFinal Sha256.compress 64 64 s) }
-def H512 : HashOps Sha512.State :=
-  { W := 128, outLen := 64, init := mdInit Sha512.iv, update := mdUpdate Sha512.compress 128 128,
-    final := fun s => Sha512.digest (mdPadFinal Sha512.compress 128 128 s) }
+def H256 : HashOps Sha256.State := C04Ref.H256
+def H512 : HashOps Sha512.State := C04Ref.H512
 
 def hashChunks {σ : Type} (H : HashOps σ) (cs : List Bytes) : Bytes := H.final (cs.foldl H.update H.init)
 def hmacChunks {σ : Type} (H : HashOps σ) (key : Bytes) (cs : List Bytes) : Bytes :=
@@ -36,9 +33,9 @@ def polyChunksLimb (key : Bytes) (cs : List Bytes) : Bytes :=
 
 def b2Chunks (outlen : Nat) (key salt personal : Bytes) (cs : List Bytes) : String :=
   if outlen = 0 ∨ outlen > 64 ∨ key.length > 64 then "-1" else
-  let s0 := b2Init Blake2b.compress Blake2b.paramInit outlen key salt personal
-  let s := cs.foldl (fun s c => b2Update Blake2b.compress (c.length + 1) s c) s0
-  match b2Final Blake2b.compress Blake2b.digest s outlen with
+  let s0 := b2Init C04Ref.blake2bF Blake2b.paramInit outlen key salt personal
+  let s := cs.foldl (fun s c => b2Update C04Ref.blake2bF (c.length + 1) s c) s0
+  match b2Final C04Ref.blake2bF Blake2b.digest s outlen with
   | .err => "-1"
   | .ok o => s!"0 {toHex o}"
 
@@ -73,7 +70,7 @@ def handle (op : String) (args : List String) : Option String :=
     some (b2Chunks (← parseNat? outlen) (← ofHex key) (← optHex salt) (← optHex personal) (← hexList cs))
   | "shorthash", [alg, key, msg] => do
     let key ← ofHex key; let msg ← ofHex msg
-    if alg = "24" then some (toHex (SipHash.siphash24 key msg)) else some (toHex (SipHash.siphashx24 key msg))
+    if alg = "24" then some (toHex (C04Ref.siphash24 key msg)) else some (toHex (C04Ref.siphashx24 key msg))
   | "onetimeauth", key :: cs => do some (toHex (polyChunksLimb (← ofHex key) (← hexList cs)))
   | "kdf.hkdf256.extract", salt :: cs => do some (toHex (hmacChunks H256 (← ofHex salt) (← hexList cs)))
   | "kdf.hkdf512.extract", salt :: cs => do some (toHex (hmacChunks H512 (← ofHex salt) (← hexList cs)))
@@ -82,7 +79,7 @@ def handle (op : String) (args : List String) : Option String :=
   | "kdf.blake2b", [n, id, ctx, key] => do
     let id ← parseNat? id
     if id ≥ 2 ^ 64 then some badArgs else
-    some (hres (kdfBlake2b Blake2b.compress Blake2b.paramInit Blake2b.digest (← parseNat? n) (UInt64.ofNat id) (← ofHex ctx) (← ofHex key)))
+    some (hres (kdfBlake2b C04Ref.blake2bF Blake2b.paramInit Blake2b.digest (← parseNat? n) (UInt64.ofNat id) (← ofHex ctx) (← ofHex key)))
   | _, _ => none
 
 end Sodium.Driver.C04
